@@ -190,7 +190,7 @@ def _one(args):
 
 
 def run(light=False):
-    sys.path[:0] = [p for p in ("/repo",) if p not in sys.path]
+    sys.path[:0] = [p for p in (corpus.REPO,) if p not in sys.path]
     from harness.rec import Recorder
     sp = corpus.SPECS["chain"]
     cs = corpus.cs_of(sp)
